@@ -136,6 +136,8 @@ fn run_case(sizes: &[usize], fail: Fail, prefilled: usize) -> Result<Vec<String>
     drop(st);
     match sut.reopen() {
         Ok(()) => {
+            // (reopen runs under its own watchdog window and clears it: open a new one for the read-back)
+            let _call = crate::util::in_call("failed-batch case (read-back after reopen)");
             let st = sut.store().clone();
             check_reads(&st, "after a clean reopen", &mut problems);
             let n = st.len();
@@ -188,6 +190,8 @@ pub fn run(accept: &[&str], thorough: bool, report: &mut Report) {
     let done = AtomicU64::new(0);
     par_for_each(cases, crate::util::worker_threads(), &stop, |_, (s, fail, pre)| {
         crate::util::set_context(json!({"engine": "batchfail", "sizes": s, "fail": format!("{fail:?}"), "prefilled": pre}));
+        // a case is a handful of calls taking milliseconds: the whole case runs under the call watchdog
+        let _call = crate::util::in_call("failed-batch case (insert / flush / delete / reopen)");
         match run_case(&s, fail, pre) {
             Ok(problems) => {
                 for p in problems {
